@@ -27,7 +27,7 @@ FUNS = {
     'maybe': (FN + 'maybe', [FN + 'p_v']),
     'pair': (FN + 'pair', [FN + 'p_a', FN + 'p_b']),
 }
-VALS = ['a', 'Bc', 'x y', ' pad ', 'a,b', 'a,b,c', ',', 'false', 'No', '0', 'yes', 'TRUE', 'é', 'ß', 'İ', 'x', 'None', 'nan', 'a-b', '']
+VALS = ['a', 'Bc', 'x y', ' pad ', 'a,b', 'a,b,c', ',', 'false', 'No', '0', 'yes', 'TRUE', 'é', 'ß', 'İ', 'x', 'None', 'nan', 'a-b', '', 'be\x07ll', 'zero\u200bwidth,x']
 
 
 def tm(k, v, ck='iri', tt=''):
@@ -114,6 +114,8 @@ def gen_fn_case(rng):
     cfg = {'nquads': rng.random() < 0.5, 'mode': rng.choice(['NO', 'PARTIAL-AGGREGATIONS', 'MAXIMAL']), 'udfs': 'udfs.py'}
     if rng.random() < 0.2:
         cfg['na'] = rng.choice([[''], ['', 'nan', 'x'], ['A', 'a']])
+    if rng.random() < 0.2:
+        cfg['printable'] = True          # only_printable_chars applies to function results as to any other term
     return {'cfg': cfg, 'sources': [{'key': 'S0', 'kind': 'csv', 'cols': cols, 'rows': rows}], 'doc': doc, 'execs': g.execs}
 
 
